@@ -1205,7 +1205,10 @@ impl L7ListenerHandler for HttpsListener {
 
     fn get_h2_flood_config(&self) -> crate::protocol::mux::H2FloodConfig {
         let defaults = crate::protocol::mux::H2FloodConfig::default();
-        crate::protocol::mux::H2FloodConfig {
+        // Listener values arrive unvalidated on the Add*Listener path; go through
+        // `H2FloodConfig::new` so a zero threshold is clamped instead of tripping
+        // the flood detector on the first frame.
+        let raw = crate::protocol::mux::H2FloodConfig {
             max_rst_stream_per_window: self
                 .config
                 .h2_max_rst_stream_per_window
@@ -1258,7 +1261,22 @@ impl L7ListenerHandler for HttpsListener {
                 .config
                 .h2_max_header_fields
                 .unwrap_or(defaults.max_header_fields),
-        }
+        };
+        crate::protocol::mux::H2FloodConfig::new(
+            raw.max_rst_stream_per_window,
+            raw.max_ping_per_window,
+            raw.max_settings_per_window,
+            raw.max_empty_data_per_window,
+            raw.max_window_update_stream0_per_window,
+            raw.max_continuation_frames,
+            raw.max_glitch_count,
+            raw.max_rst_stream_lifetime,
+            raw.max_rst_stream_abusive_lifetime,
+            raw.max_rst_stream_emitted_lifetime,
+            raw.max_header_list_size,
+            raw.max_header_table_size,
+            raw.max_header_fields,
+        )
     }
 
     fn get_h2_connection_config(&self) -> crate::protocol::mux::H2ConnectionConfig {
